@@ -179,6 +179,38 @@ pub fn run_token<B: Backend>(acc: &mut Acc, c: &TokCase, filter: Option<&MutId>)
                     acc.fail(Fail::new(format!("C12/{name}/{purpose}/{}/accepted", x.id.class), "corrupted token accepted".to_string()), rc(&x.id));
                 }
             }
+            // text-level extensions of the genuine token (extra characters / sections): never sealed either
+            {
+                let text = model::assemble(&format!("{}.{purpose}.", B::VER.v()), &b_ok.payload, &b_ok.footer);
+                let fb64 = crate::util::b64_encode(&b_ok.footer);
+                let pb64_end = text.len() - if b_ok.footer.is_empty() { 0 } else { fb64.len() + 1 };
+                let mut exts: Vec<String> = c02::ALPHABET.chars().map(|ch| ch.to_string()).collect();
+                exts.extend(["..".to_string(), ".AAAA.BBBB".to_string(), "=".to_string(), " ".to_string()]);
+                if !b_ok.footer.is_empty() {
+                    exts.extend([".".to_string(), ".AAAA".to_string(), format!(".{fb64}")]);
+                }
+                for (ei, ext) in exts.iter().enumerate() {
+                    let id = MutId { class: "text-extension".into(), pos: ei as u32, arg: 0 };
+                    if !want(&id) {
+                        continue;
+                    }
+                    let mut variants = vec![format!("{text}{ext}")];
+                    if ext.len() == 1 && !b_ok.footer.is_empty() {
+                        variants.push(format!("{}{ext}{}", &text[..pb64_end], &text[pb64_end..]));
+                    }
+                    for s2 in variants {
+                        acc.eval();
+                        acc.class("mutant:text-extension");
+                        acc.nt(hash_of(&(c, &id, s2.len())));
+                        trace_take();
+                        let r = s2.parse::<SealedToken<V<B>, $P, Probe, Vec<u8>>>().and_then(|t| t.unseal(&$unsealkey, &b_ok.assertion, &ProbeValidator { accept: true }));
+                        let t = trace_take();
+                        if !t.is_empty() || r.is_ok() {
+                            acc.fail(Fail::new(format!("C12/{name}/{purpose}/text-extension/decoder-or-validator-ran"), format!("the genuine token with {ext:?} appended to a segment reached {t:?} (result ok: {})", r.is_ok())), rc(&id));
+                        }
+                    }
+                }
+            }
             for (id, k) in $keyvars {
                 if !want(&id) {
                     continue;
